@@ -110,30 +110,29 @@ def ownership(ctx, rep, cfgs=None):
                   sample={'release_function': free_fns, 'constructors': sorted(set(f.name for f, _ in allocs))})
         relfn = free_fns[0]
 
-        # ---- shape of the release function
-        rep.rule('OWN-2', 'release function: NULL argument -> no call at all; otherwise dep:memzero(p, sizeof(seed)) then '
-                 'dep:free(p) with the parameter itself (offset 0), each exactly once, in that order')
-        F = P.fn(relfn)
-        ws = feasible_walks(P, F)
-        rep.instances(len(ws), 2, 'paths of the release function')
-        for w in ws:
-            calls = [(i, P.call_target(i)) for i in w.events if i.op == 'call']
-            isnull = any(k == ('a', 0) and r == 'eq' and c == 0 for k, r, c in w.facts)
-            notnull = any(k == ('a', 0) and r == 'ne' and c == 0 for k, r, c in w.facts)
-            where = F.blocks[w.path[-1]][-1].loc
-            if isnull:
-                rep.check(not calls, 'NULL path makes no call', where, relfn, detail=w.describe(), sample=w.describe())
-            elif notnull:
-                seq = [t for _, t in calls]
-                ok = seq == [('dep', 'memzero'), ('dep', 'free')]
-                if ok:
-                    mz, fr = calls[0][0], calls[1][0]
-                    a0 = w.derived_from_arg(mz.ops[0]); a1 = w.derived_from_arg(fr.ops[0])
-                    ok = a0 == (0, 0) and a1 == (0, 0) and w.val(mz.ops[1]) == size
-                rep.check(ok, 'non-NULL path wipes the whole block (%d bytes) through dep:memzero, then frees the same pointer' % size,
-                          where, relfn, detail=w.describe(), sample=w.describe())
-            else:
-                rep.fail('release function tests its argument against NULL before using it', where, relfn, detail=w.describe())
+        # ---- behaviour of the release function (bitflow: helpers are followed, wrappers resolved)
+        rep.rule('OWN-2', 'release function, interpreted abstractly: with a NULL argument no injected function is called at all; with a block it calls '
+                 'dep:memzero(block+0, sizeof(seed)) - so the block is all-zero - and then dep:free(block+0), each exactly once, in that order, whether the '
+                 'calls are made directly or through helpers')
+        from .bitflow import Interp, State, Ptr, BV
+        from .harness import Deps, symbolic_seed
+        F = P.fn(relfn); where = '%s:%s' % ((F.file or '').replace('/repo/', ''), F.line)
+        for arg_is_null in (True, False):
+            summ = {}; I = Interp(P, summaries=summ); Deps(I).install(summ)
+            st = State()
+            if arg_is_null: arg = BV.const(0, 64)
+            else: arg, _ = symbolic_seed(I, st, name='block', canonical=False)
+            outs = I.run(F, [arg] + [BV.const(0, p_['bits'] or 64) for p_ in F.params[1:]], st)
+            rep.instances(len(outs), 1, 'outcomes of the release function')
+            for o in outs:
+                ev = [t for t in o.state.trace if t[0] in ('memzero', 'memzero-symbolic-length', 'free', 'alloc', 'randbytes', 'pbkdf2', 'time', 'u8_nfc', 'u8_nfkd')]
+                if arg_is_null:
+                    rep.check(not ev, 'NULL argument: no injected function is called', where, relfn, detail=[str(e)[:80] for e in ev], sample='NULL -> no calls')
+                else:
+                    ok = len(ev) == 2 and ev[0][0] == 'memzero' and ev[0][1] == repr(Ptr('block', 0)) and ev[0][2] == size and ev[1][0] == 'free' and ev[1][1] == repr(Ptr('block', 0))
+                    ok = ok and all(c == [0] * 8 for c in o.state.mem.objs['block'])
+                    rep.check(ok, 'block: dep:memzero(block, %d) then dep:free(block); the block is all-zero when released' % size, where, relfn,
+                              detail=[str(e)[:100] for e in ev], sample=[e[0] for e in ev], key='OWN-2|%s' % base_name(relfn))
 
         # ---- typestate per constructor path
         rep.rule('OWN-3', 'on every path of every function that allocates: at most one allocation of sizeof(seed) bytes; the '
@@ -150,9 +149,11 @@ def ownership(ctx, rep, cfgs=None):
         npaths = 0
         for cn in ctors:
             f = P.defined[cn]
-            if f.has_loop():
-                raise AnalysisBroken('constructor %s contains a loop at its own level: path enumeration not applicable' % cn)
-            for w in feasible_walks(P, f):
+            from .paths import structural_walks
+            # loops at the constructor's own level (e.g. an open-coded zeroing loop): every back edge once, no feasibility pruning -
+            # ownership events do not depend on trip counts
+            walks = structural_walks(P, f, unroll=1) if f.has_loop() else feasible_walks(P, f)
+            for w in walks:
                 npaths += 1
                 _typestate(P, f, w, rep, rel, cap, relfn, size, OK, EMEM, wrappers)
         rep.instances(len(ctors), 2, 'allocating functions')
@@ -264,6 +265,11 @@ def _typestate(P, f, w, rep, rel, cap, relfn, size, OK, EMEM, wrappers=()):
     if not released and not transferred:
         rep.fail('block neither released nor handed to the caller on this path: leak (status %s)' % (rc,), where, cons,
                  detail=pathdesc, key=key + '|leak')
+        return
+    if rc is not None and rc[0] == 'value':
+        # status computed from flags / conditional expressions: its agreement with publish/release is decided by the exit summaries (CREATE,
+        # DEC-EXITS, LOAD-EXITS), which every property running this rule also runs
+        rep.ok('%s: block %s exactly once; status is a computed value (checked by the exit-summary rules)' % (cons, 'published' if transferred else 'released'))
         return
     if transferred:
         ok = rc == ('const', OK)
